@@ -1,4 +1,4 @@
-CONSTANTS NH = 5  MaxPrem = 3  MaxJ = 5  MaxOps = 8
+CONSTANTS NH = 5  MaxPrem = 3  MaxJ = 5  MaxOps = 7
 INIT Init
 NEXT Next
 CONSTRAINT Bound
